@@ -1,3 +1,4 @@
+mod c03;
 mod checks;
 mod decode;
 mod exec;
@@ -562,6 +563,9 @@ fn replay_cmd(path: &str) -> i32 {
             return 2;
         }
     };
+    if s.contains("\"property\": \"C03\"") {
+        return c03::replay(path, &s);
+    }
     let rf: ReplayFile = match serde_json::from_str(&s) {
         Ok(r) => r,
         Err(e) => {
@@ -657,8 +661,14 @@ fn main() {
                 .and_then(|i| args.get(i + 1).cloned())
                 .or_else(|| std::env::var("VERIF_TIER").ok())
                 .unwrap_or("quick".into());
-            check_cmd(&id, &tier, seed)
+            if id == "C03" {
+                c03::check_cmd(&tier, seed)
+            } else {
+                check_cmd(&id, &tier, seed)
+            }
         }
+        Some("c03-worker") => c03::worker_cmd(&args),
+        Some("c03-one") => c03::one_cmd(args.get(2).map(|s| s.as_str()).unwrap_or("")),
         Some("replay") => replay_cmd(args.get(2).map(|s| s.as_str()).unwrap_or("")),
         Some("explore") => explore_cmd(&args[2], args.get(3).and_then(|s| s.parse().ok()).unwrap_or(1000), seed),
         Some("show") => show_cmd(&args[2], args.get(3).and_then(|s| s.parse().ok()).unwrap_or(0), seed),
